@@ -425,3 +425,196 @@ RULES = [
     ("C02.R1b", r1b_compound_single),
     ("C02.R1d", r1d_compound_compound),
 ]
+
+
+# ---------------------------------------------------------------------------------------------------------
+# R5: derived operations (extension, distance, shift, reversal, strand reset, preserve-overlap union)
+# ---------------------------------------------------------------------------------------------------------
+
+def _derived_case(repo, it, S, spec):
+    kind, env, sn = spec
+    out = []
+    n = 0
+    st = S[sn]
+    base = 6  # keep room below the location for extensions
+    if kind == "s":
+        a = mk_single(it, base + env["as"], base + env["ae"], st)
+        cls = "SingleInterval"
+    else:
+        a = mk_compound(it, [base + env["s0"], base + env["s1"]], [base + env["e0"], base + env["e1"]], st)
+        cls = "CompoundInterval"
+    A = positions(a)
+    M = multiset(a)
+    bl = blocks_of(a)
+    desc = _describe(a)
+    lo, hi = bl[0][0], bl[-1][1]
+    q = lambda m: repo.fn(f"{LOC}:{cls}.{m}")  # noqa: E731
+
+    def bad(key, msg, fn):
+        out.append((key, msg, fn.qual))
+
+    overlapping = any(v > 1 for v in M.values())
+    for ea, eb in ((0, 0), (1, 0), (0, 2), (2, 3), (base + 1, 0), (-1, 1)):
+        n += 1
+        f = q("extend_absolute")
+        k, v = run(it, f, [ea, eb], {}, a)
+        if min(ea, eb) < 0:
+            if not (k == "raise" and v == "ValueError"):
+                bad("extend_absolute negative", f"{desc}.extend_absolute({ea},{eb}) -> {k}:{v}; documented ValueError", f)
+            continue
+        if lo - ea < 0:
+            if not (k == "raise" and v == "InvalidPositionException"):
+                bad("extend_absolute below zero", f"{desc}.extend_absolute({ea},{eb}) -> {k}:{_describe(v) if k == 'ok' else v}; documented InvalidPositionException", f)
+            continue
+        want = A | set(range(lo - ea, lo)) | set(range(hi, hi + eb))
+        if k != "ok" or positions(v) != want or (want and strand_of(v) != st) or well_formed(v):
+            bad("extend_absolute", f"{desc}.extend_absolute({ea},{eb}) -> {k}:{_describe(v) if k == 'ok' else v}; expected positions {sorted(want)}", f)
+        if sn in ("PLUS", "MINUS") and (ea, eb) != (base + 1, 0):
+            n += 1
+            f2 = q("extend_relative")
+            k, v = run(it, f2, [ea, eb], {}, a)
+            up, down = (ea, eb)
+            want2 = A | (set(range(lo - up, lo)) | set(range(hi, hi + down)) if sn == "PLUS" else set(range(lo - down, lo)) | set(range(hi, hi + up)))
+            if lo - (up if sn == "PLUS" else down) >= 0 and (k != "ok" or positions(v) != want2):
+                bad("extend_relative", f"{desc}.extend_relative({up},{down}) -> {k}:{_describe(v) if k == 'ok' else v}; upstream/downstream extension gives {sorted(want2)}", f2)
+    if sn == "UNSTRANDED":
+        n += 1
+        k, v = run(it, q("extend_relative"), [1, 1], {}, a)
+        if not (k == "raise" and v == "InvalidStrandException"):
+            bad("extend_relative unstranded", f"{desc}.extend_relative(1,1) -> {k}:{v}; direction is undefined: documented InvalidStrandException", q("extend_relative"))
+    for sh in (0, 3, -2, -(lo + 1)):
+        n += 1
+        f = q("shift_position")
+        k, v = run(it, f, [sh], {}, a)
+        if lo + sh < 0:
+            if k != "raise":
+                bad("shift_position below zero", f"{desc}.shift_position({sh}) -> {_describe(v)}; must be refused", f)
+            continue
+        if k != "ok" or multiset(v) != {p + sh: c for p, c in M.items()} or strand_of(v) != st:
+            bad("shift_position", f"{desc}.shift_position({sh}) -> {k}:{_describe(v) if k == 'ok' else v}", f)
+    # strand operations keep the blocks
+    for m, want_strand in (("reverse_strand", {"PLUS": "MINUS", "MINUS": "PLUS", "UNSTRANDED": "UNSTRANDED"}[sn]), ("reset_strand", "MINUS")):
+        n += 1
+        f = q(m)
+        k, v = run(it, f, [S["MINUS"]] if m == "reset_strand" else [], {}, a)
+        if k != "ok" or multiset(v) != M or strand_of(v).name != want_strand:
+            bad(m, f"{desc}.{m}() -> {k}:{_describe(v) if k == 'ok' else v}; same blocks on strand {want_strand}", f)
+    n += 1
+    f = q("reverse")
+    k, v = run(it, f, [], {}, a)
+    mirror = {lo + hi - 1 - p: c for p, c in M.items()}
+    wantM = M if kind == "s" else mirror
+    if k != "ok" or multiset(v) != wantM or strand_of(v).name != {"PLUS": "MINUS", "MINUS": "PLUS", "UNSTRANDED": "UNSTRANDED"}[sn]:
+        bad("reverse", f"{desc}.reverse() -> {k}:{_describe(v) if k == 'ok' else v}; {'same blocks' if kind == 's' else 'blocks mirrored within the span'} on the opposite strand", f)
+    if kind == "c" and A:
+        n += 1
+        f = q("gaps_location")
+        k, v = run(it, f, [], {}, a)
+        want = set(range(min(A), max(A) + 1)) - A
+        got = positions(v) if k == "ok" else None
+        if got != want:
+            bad("gaps_location", f"{desc}.gaps_location() -> {k}:{_describe(v) if k == 'ok' else v}; span minus blocks is {sorted(want)}", f)
+    # distance to a fixed second location
+    DT = it.enum("DistanceType")
+    for ob in ([(2, 4)], [(base + 3, base + 5)], [(base + 20, base + 22), (base + 25, base + 26)]):
+        b = mk_single(it, ob[0][0], ob[0][1], st) if len(ob) == 1 else mk_compound(it, [x[0] for x in ob], [x[1] for x in ob], st)
+        blo, bhi = ob[0][0], ob[-1][1]
+        for dt in ("STARTS", "ENDS", "OUTER", "INNER"):
+            n += 1
+            f = q("distance_to")
+            k, v = run(it, f, [b, DT[dt]], {}, a)
+            if dt == "STARTS":
+                want = abs(lo - blo)
+            elif dt == "ENDS":
+                want = abs(hi - bhi)
+            elif dt == "OUTER":
+                want = max(abs(lo - bhi), abs(hi - blo))
+            else:
+                nb_a = [x for x in bl]
+                want = None
+                for s1, e1 in nb_a:
+                    for s2, e2 in ob:
+                        ov = s1 < e1 and s2 < e2 and max(s1, s2) < min(e1, e2)
+                        d = 0 if ov else min(abs(s1 - e2), abs(e1 - s2))
+                        want = d if want is None else min(want, d)
+            if k != "ok" or v != want:
+                bad(f"distance_to {dt}", f"{desc}.distance_to({ob}, {dt}) -> {k}:{v}; the documented function of the end points gives {want}", f)
+    return n, out
+
+
+def r5_derived(ctx):
+    repo = ctx.repo
+    specs = []
+    for env in orderings(["as", "ae"], [lambda e: e["as"] <= e["ae"]]):
+        for sn in ("PLUS", "MINUS", "UNSTRANDED"):
+            specs.append(("s", env, sn))
+    cons = [lambda e: e["s0"] <= e["e0"], lambda e: e["s1"] <= e["e1"], lambda e: e["s0"] <= e["s1"]]
+    for env in orderings(["s0", "e0", "s1", "e1"], cons):
+        for sn in ("PLUS", "MINUS") if not ctx.thorough else ("PLUS", "MINUS", "UNSTRANDED"):
+            specs.append(("c", env, sn))
+
+    def work(spec):
+        if "it" not in _W or _W.get("repo") is not repo:
+            _W["it"] = loc_interp(repo, max_steps=10 ** 12)
+            _W["repo"] = repo
+        it = _W["it"]
+        try:
+            return _derived_case(repo, it, strands(it), spec)
+        except Uninterpretable as ex:
+            return 0, [("uninterpretable", str(ex), f"{LOC}:SingleInterval.extend_absolute")]
+
+    results = pmap(work, specs)
+    n = sum(x[0] for x in results)
+    ctx.r.count(n)
+    first = {}
+    for _, outs in results:
+        for key, msg, q in outs:
+            first.setdefault((q, key), msg)
+    if any(k[1] == "uninterpretable" for k in first):
+        from ..model import AnalysisError
+        raise AnalysisError("C02.R5: " + [m for k, m in first.items() if k[1] == "uninterpretable"][0])
+    for (q, key), msg in sorted(first.items()):
+        ctx.r.violation("C02.R5", q, key, msg, repo.fn(q))
+    if not first:
+        for cls in ("SingleInterval", "CompoundInterval"):
+            for m in ("extend_absolute", "extend_relative", "shift_position", "reverse", "reverse_strand", "reset_strand", "distance_to"):
+                ctx.r.ok("C02.R5", f"{LOC}:{cls}.{m}", "derived operation on all order types", repo.fn(f"{LOC}:{cls}.{m}"), f"{n} interpreted evaluations")
+
+
+def r4_empty_location(ctx):
+    """_EmptyLocation identities: every set-algebra method returns an empty answer or raises EmptyLocationException"""
+    r, repo = ctx.r, ctx.repo
+    it = loc_interp(repo)
+    S = strands(it)
+    e = it.empty
+    other = mk_single(it, 3, 9, S["PLUS"])
+    expect = {"has_overlap": ("ok", False), "intersection": ("ok", "empty"), "minus": ("ok", "empty"), "optimize_blocks": ("ok", "empty"),
+              "gap_list": ("ok", []), "gaps_location": ("ok", "empty"), "merge_overlapping": ("ok", "empty"), "reverse": ("ok", "empty"),
+              "reverse_strand": ("ok", "empty"), "union": ("raise", "EmptyLocationException"), "extend_absolute": ("raise", "EmptyLocationException"),
+              "shift_position": ("raise", "EmptyLocationException"), "distance_to": ("raise", "EmptyLocationException"),
+              "parent_to_relative_pos": ("raise", "EmptyLocationException"), "relative_to_parent_pos": ("raise", "EmptyLocationException"),
+              "extract_sequence": ("raise", "EmptyLocationException"), "reset_strand": ("raise", "EmptyLocationException")}
+    args = {"has_overlap": [other], "intersection": [other], "minus": [other], "union": [other], "extend_absolute": [1, 1], "shift_position": [1],
+            "distance_to": [other], "parent_to_relative_pos": [3], "relative_to_parent_pos": [0], "reset_strand": [S["PLUS"]]}
+    for m, (wk, wv) in expect.items():
+        fn = repo.fn(f"{LOC}:_EmptyLocation.{m}")
+        k, v = run(it, fn, args.get(m, []), {}, e)
+        ok = k == wk and ((wv == "empty" and is_empty_obj(v)) or (wv != "empty" and v == wv))
+        r.check(ok, "C02.R4", fn.qual, f"EmptyLocation.{m}", f"EmptyLocation.{m} -> {k}:{_describe(v) if k == 'ok' else v}; expected {wk}:{wv}", fn)
+    for prop_, want in (("is_empty", True), ("blocks", []), ("num_blocks", 0), ("is_overlapping", False)):
+        fn = repo.fn(f"{LOC}:_EmptyLocation.{prop_}")
+        k, v = run(it, fn, [], {}, e)
+        r.check(k == "ok" and v == want, "C02.R4", fn.qual, f"EmptyLocation.{prop_}", f"EmptyLocation.{prop_} -> {k}:{v}", fn)
+    # and the non-empty classes against it
+    for cls, mk in (("SingleInterval", lambda: mk_single(it, 3, 9, S["PLUS"])), ("CompoundInterval", lambda: mk_compound(it, [3, 12], [9, 15], S["PLUS"]))):
+        a = mk()
+        for m, want in (("has_overlap", False),):
+            fn = repo.fn(f"{LOC}:{cls}.{m}")
+            k, v = run(it, fn, [e], {}, a)
+            r.check(k == "ok" and v is want, "C02.R4", fn.qual, f"{m}(EmptyLocation)", f"{cls}.{m}(EmptyLocation) -> {k}:{v}", fn)
+
+
+RULES += [
+    ("C02.R5", r5_derived),
+    ("C02.R4", r4_empty_location),
+]
